@@ -249,6 +249,19 @@ def _random_case(draw, hi):
     return case
 
 
+@st.composite
+def _big_case(draw):
+    """grids of 64..127 cells per side: index arithmetic (row + col, row * cols + col, 2 * row + 1) leaves the int8 range"""
+    base = draw(G.big_int8_case(sizes=(127, 70, 100, 65, 64)))
+    g = base["g"]
+    n = g["r"]
+    hi_cell = st.tuples(st.integers(n - 4, n - 1), st.integers(n - 4, n - 1)).map(list)
+    any_cell = st.tuples(st.integers(0, n - 1), st.integers(0, n - 1)).map(list)
+    cells = draw(st.lists(st.one_of(hi_cell, any_cell), min_size=2, max_size=5))
+    pairs = draw(st.lists(st.tuples(any_cell, any_cell).map(list), min_size=1, max_size=6))
+    return {"g": g, "cells": cells, "pairs": pairs, "paths": [[base["sol"], False]], "np_seed": draw(st.integers(0, 2**32 - 1)), "sol": base["sol"]}
+
+
 def subs(tier: str):
     q = tier == "quick"
     return [
@@ -256,4 +269,5 @@ def subs(tier: str):
         Sub("forks-exhaustive<=3x3", check, "exhaustive", cases=_exhaustive_fork_cases, exhaustive_flag=True),
         *([] if q else [Sub("exhaustive-2x4-2x5-1xN", check, "exhaustive", cases=_exhaustive_medium, exhaustive_flag=True)]),
         Sub("random", check, "hypothesis", strategy=lambda: _random_case(15 if q else 25), examples=40 if q else 2000),
+        Sub("large-grids", check, "hypothesis", strategy=_big_case, examples=3 if q else 20),
     ]
